@@ -31,8 +31,10 @@ def main(tier, seed, replay=None):
     n = 50 if tier == "quick" else 1000
     cases = []
     for i in range(n):
-        c = gen_problem(rng, quant=(8 if i % 8 else None))
+        c = gen_problem(rng, quant=(8 if i % 8 else None), family=(rng.choice(SCALABLE) if i % 6 == 5 else None))
         c["ops"] = [["wdata"]] + states.observe_at(rng, c, nsets=2) + [["wdata"]]
+        if i % 6 == 5:
+            rescale_case(c)     # tiny absolute parameter values (other units): every update is below machine epsilon in absolute terms
         cases.append(c)
     results, nterms, nskip, hist = states.run_states(run, "C02", binp, cases, 2, lambda code: code in (2, 4, 5), "residuals")
     rterms, rhist = states.run_rankdef(run, "C02", binp, rng, 24 if tier == "quick" else 500, (4, 8))
